@@ -1,0 +1,34 @@
+//go:build verif
+
+package synchronization
+
+import (
+	"github.com/mutagen-io/mutagen/pkg/synchronization/core"
+)
+
+// VerifC40SetState replaces the conflict and problem lists in the state of the
+// session with the given identifier (holding the state lock, as the
+// synchronization loop does), so that the verification harness can observe the
+// sorting and truncation performed by Manager.List on arbitrary lists. It
+// reports whether the session exists. It exists only in builds with the verif
+// tag.
+func (m *Manager) VerifC40SetState(
+	identifier string,
+	conflicts []*core.Conflict,
+	alphaScan, alphaTransition, betaScan, betaTransition []*core.Problem,
+) bool {
+	m.sessionsLock.Lock()
+	controller, ok := m.sessions[identifier]
+	m.sessionsLock.UnlockWithoutNotify()
+	if !ok {
+		return false
+	}
+	controller.stateLock.Lock()
+	controller.state.Conflicts = conflicts
+	controller.state.AlphaState.ScanProblems = alphaScan
+	controller.state.AlphaState.TransitionProblems = alphaTransition
+	controller.state.BetaState.ScanProblems = betaScan
+	controller.state.BetaState.TransitionProblems = betaTransition
+	controller.stateLock.UnlockWithoutNotify()
+	return true
+}
